@@ -207,6 +207,12 @@ func spell(p, how string, isDir bool) string {
 		return d + "/./" + b
 	case "up-and-down":
 		return d + "/" + b + "/../" + b
+	case "relative": // relative to the working directory of the process
+		if wd, err := os.Getwd(); err == nil {
+			if r, err := filepath.Rel(wd, p); err == nil {
+				return r
+			}
+		}
 	}
 	return p
 }
